@@ -727,3 +727,28 @@ pub mod tests {
         assert_eq!(buffer_capacity(&buf4), 10);
     }
 }
+
+/// Verification hooks: re-exports of crate-private items, compiled only with `--cfg rubato_verif`.
+#[cfg(rubato_verif)]
+pub mod verif_hooks {
+    pub use crate::asynchro_fast::verif as fast;
+    pub use crate::asynchro_sinc::verif as sinc;
+    pub use crate::interpolation::{
+        get_nearest_time, get_nearest_times_2, get_nearest_times_3, get_nearest_times_4,
+    };
+    pub use crate::sinc::make_sincs;
+    #[cfg(feature = "fft_resampler")]
+    pub use crate::synchro::verif as fft;
+    pub use crate::windows::make_window;
+
+    pub fn validate_buffers<T, Vin: AsRef<[T]>, Vout: AsMut<[T]>>(
+        wave_in: &[Vin],
+        wave_out: &mut [Vout],
+        mask: &[bool],
+        channels: usize,
+        min_input_len: usize,
+        min_output_len: usize,
+    ) -> crate::ResampleResult<()> {
+        crate::validate_buffers(wave_in, wave_out, mask, channels, min_input_len, min_output_len)
+    }
+}
